@@ -141,6 +141,24 @@ class FakeReactor(Clock):
     self.triggers = []
     self.when_running = []
 
+  capture_call_errors = False      # opt-in: behave like a real reactor, which logs what a delayed call raises and goes on
+
+  def advance(self, amount):
+    if not self.capture_call_errors:
+      return Clock.advance(self, amount)
+    self.rightNow += amount
+    self._sortCalls()
+    while self.calls and self.calls[0].getTime() <= self.seconds():
+      call = self.calls.pop(0)
+      call.called = 1
+      try:
+        call.func(*call.args, **call.kw)
+      except Exception as e:
+        if not hasattr(self, 'call_errors'):
+          self.call_errors = []
+        self.call_errors.append((getattr(call.func, '__qualname__', repr(call.func)), e))
+      self._sortCalls()
+
   def connectTCP(self, host, port, factory, timeout=30, bindAddress=None):
     c = FakeConnector(self, host, port, factory)
     self.connectors.append(c)
